@@ -45,7 +45,7 @@ func realMain() int {
 			fmt.Fprintln(os.Stderr, err)
 			return 2
 		}
-		o := nativeReplay("/repo", &tape, os.Args[2])
+		o := nativeReplay(replayRepo(), &tape, os.Args[2])
 		fmt.Printf("outcome=%s detail=%s\n", o.Outcome, o.Detail)
 		if len(os.Args) > 3 {
 			fmt.Println(o.Raw)
@@ -239,4 +239,12 @@ func printStats(st *Stats) {
 		}
 		fmt.Printf("VIOLATION-CANDIDATE kind=%s label=%s msg=%q path=%v draws=%s\n", v.Kind, v.Label, v.Msg, v.Decision, d)
 	}
+}
+
+// replayRepo: repository the `replay` subcommand builds against (GOSYM_REPO, default /repo).
+func replayRepo() string {
+	if r := os.Getenv("GOSYM_REPO"); r != "" {
+		return r
+	}
+	return "/repo"
 }
